@@ -400,6 +400,32 @@ func c18Programs(tier string) []*Spec {
 			}
 		}
 	}
+	// a priority change addressed to a finished bar between the cycle that gives it its pop priority and the cycle
+	// that pops it
+	for _, rf := range []string{"manual"} {
+		for _, k := range []int{1, 2, 3} {
+			for _, how := range []string{"setprio", "prio"} {
+				sp := &Spec{Name: fmt.Sprintf("c18-prio-window-%s-after%d", how, k), Refresh: rf, Q: -1, Pop: true}
+				sp.Bars = []BarSpec{{Total: 1}, {Total: 9}, {Total: 9}}
+				sp.Main = []Op{{K: "add", B: 0}, {K: "add", B: 1}, {K: "add", B: 2}}
+				ops := []Op{{K: "incr", B: 0, N: 1}}
+				for i := 0; i < k; i++ {
+					ops = append(ops, Op{K: "refresh"})
+				}
+				ops = append(ops, Op{K: how, B: 0, N: 7}, Op{K: "refresh"}, Op{K: "refresh"}, Op{K: "refresh"}, Op{K: "incr", B: 1, N: 9}, Op{K: "incr", B: 2, N: 9}, Op{K: "refresh"}, Op{K: "refresh"}, Op{K: "refresh"}, Op{K: "refresh"})
+				sp.Clients = [][]Op{ops}
+				out = append(out, sp)
+			}
+		}
+	}
+	for _, ms := range []int64{50, 150, 250, 350} {
+		// auto refresh every 100 ms of virtual time: the change lands in each of the windows after the completion
+		sp := &Spec{Name: fmt.Sprintf("c18-prio-window-auto-%dms", ms), Refresh: "auto", Q: -1, Pop: true}
+		sp.Bars = []BarSpec{{Total: 1}, {Total: 9}, {Total: 9}}
+		sp.Main = []Op{{K: "add", B: 0}, {K: "add", B: 1}, {K: "add", B: 2}}
+		sp.Clients = [][]Op{{{K: "incr", B: 0, N: 1}, {K: "sleep", N: ms}, {K: "setprio", B: 0, N: 7}, {K: "sleep", N: 400}, {K: "incr", B: 1, N: 9}, {K: "incr", B: 2, N: 9}}}
+		out = append(out, sp)
+	}
 	return out
 }
 
@@ -426,7 +452,7 @@ func init() {
 	})
 	register(&Family{
 		Property: "C18",
-		Rule: "pop-completed mode: 2 (thorough 3) bars finishing in every order, in the same cycle, with extender rows, with a no-pop bar, with text written in between, with an abort, next to a bar that keeps running; manual (exact frames) and auto refresh; recorder on an endless virtual terminal and a 40x12 pseudo terminal; every schedule within the deviation bound. " +
+		Rule: "pop-completed mode: 2 (thorough 3) bars finishing in every order, in the same cycle, with extender rows, with a no-pop bar, with text written in between, with an abort, next to a bar that keeps running, with a priority change addressed to the finished bar in each window between its completion and its pop; manual (exact frames) and auto refresh; recorder on an endless virtual terminal and a 40x12 pseudo terminal; every schedule within the deviation bound. " +
 			"Oracle (terminal emulator): a popped bar is drawn above all live rows, from then on its rows are in the terminal history exactly once and unchanged (history == persisted lines ++ live rows after every flush), popped bars are ordered by the frame in which they finished, none is popped twice, every finished poppable bar is eventually popped (auto refresh), no-pop bars stay in the live region.",
 		Items: func(tier string) []Item {
 			var items []Item
